@@ -38,6 +38,9 @@ class Scratch:
         return os.path.join(self.dir, *p)
 
     def cleanup(self):
+        if os.environ.get("VERIF_KEEP"):        # debugging: leave the scratch directory (harness, traces, TLC output) in place
+            log("scratch kept: " + self.dir)
+            return
         shutil.rmtree(self.dir, ignore_errors=True)
 
 
